@@ -67,8 +67,11 @@ ProgsAndOr ==
 (* `!` at every position of conjunctions and disjunctions, followed by        *)
 (* succeeding / failing / multi-answer goals, in called predicates, with       *)
 (* later clauses that succeed, fail and print                                  *)
-CutLits == {Call(q1(X)), Call(r1(X)), CutG, FailG, UnifyG(X, b), pr(X), Call(c1(X))}
-CutLitsS == {Call(q1(X)), Call(r1(X)), CutG, FailG, pr(X)}
+(* k($X) :- q($X).  -- a goal whose answers come from the LAST (only) clause of its predicate, a rule whose body *)
+(* has further answers: after a cut it must not be re-tried either                                             *)
+k1(t) == Cx("k", <<t>>)
+CutLits == {Call(q1(X)), Call(r1(X)), CutG, FailG, UnifyG(X, b), pr(X), Call(c1(X)), Call(k1(X))}
+CutLitsS == {Call(q1(X)), Call(r1(X)), CutG, FailG, pr(X), Call(k1(X))}
 RECURSIVE HasCutG(_)
 HasCutG(g) == g = CutG \/ (g.g \in {"and", "or"} /\ \E i \in DOMAIN g.gs : HasCutG(g.gs[i]))
 CutBodiesAll ==
@@ -88,7 +91,7 @@ CutBodiesAll ==
   \cup {OrG(<<l1, l2, l3>>) : l1 \in CutLitsS, l2 \in CutLitsS, l3 \in {CutG, Call(r1(X)), FailG}}
   \cup {CutG}
 CutBodies == {bd \in CutBodiesAll : HasCutG(bd) \/ (bd.g = "and" /\ \E i \in DOMAIN bd.gs : bd.gs[i] = Call(c1(X)))}
-CalledCut == <<Clause(c1(X), AndG(<<Call(q1(X)), CutG>>)), Fact(c1(c))>>
+CalledCut == <<Clause(c1(X), AndG(<<Call(q1(X)), CutG>>)), Fact(c1(c)), Clause(k1(X), Call(q1(X)))>>
 CutSecond == {Fact(p1(c)), Clause(p1(X), Call(r1(X))), Clause(p1(X), AndG(<<pr(Atom("second")), FailG>>)),
               Clause(p1(X), AndG(<<Call(r1(X)), CutG>>))}
 CutFirst  == {Fact(p1(a)), Clause(p1(X), Call(q1(X)))}
@@ -236,7 +239,13 @@ AliasExtra == <<Clause(Cx("e2", <<X, Y>>), UnifyG(X, Y)), Fact(Cx("e2", <<a, b>>
 AliasQueries == {Cx("e", <<Z, W>>), Cx("e", <<Z, Z>>), Cx("e", <<Z, a>>), Cx("e", <<a, Z>>), Cx("e", <<X, Y>>),
                  Cx("e", <<Y, X>>), p1(Z), p1(X), Cx("e", <<Cx("f", <<X>>), Cx("f", <<Z>>)>>),
                  Cx("e", <<Lst(<<X>>), LstT(<<Z>>, W)>>)}
+(* an answer that keeps an unbound variable of a clause fetched late (its id has two digits) inside a compound term *)
+VA == V("$A") VB == V("$B") VC == V("$C") VD == V("$D") VE == V("$E") VF == V("$F") VG == V("$G") VH == V("$H")
+LateProg == BaseFacts \o
+  << Clause(Cx("late", <<X>>), AndG(<<Call(s2(VA, VB)), Call(s2(VC, VD)), Call(s2(VE, VF)), Call(s2(VG, VH)), Call(Cx("pack", <<X>>))>>)),
+     Fact(Cx("pack", <<Cx("box", <<V("$Item")>>)>>)), Fact(Cx("pack", <<LstT(<<a>>, V("$Item"))>>)) >>
 ProgsAlias == PQS({BaseFacts \o AliasExtra \o <<c1_, c2_>> : c1_ \in AliasClauses, c2_ \in AliasClauses}, AliasQueries)
+              \cup PQ(LateProg, {Cx("late", <<Z>>), Cx("late", <<X>>)})
 
 ProgQueries == CASE Slice = "andor" -> ProgsAndOr
                  [] Slice = "cut"   -> ProgsCut
@@ -325,7 +334,7 @@ RenGoal(g, names, pool) ==
 RenGoals(gs, names, pool) == IF gs = <<>> THEN <<>> ELSE <<RenGoal(Head(gs), names, pool)>> \o RenGoals(Tail(gs), names, pool)
 RECURSIVE Reverse(_)
 Reverse(sq) == IF sq = <<>> THEN <<>> ELSE Append(Reverse(Tail(sq)), Head(sq))
-Pool1(q) == QueryNames(q) \o <<"$V1", "$V2", "$V3", "$V4", "$V5", "$V6", "$V7">>
+Pool1(q) == QueryNames(q) \o <<"$V1", "$V2", "$V3", "$V4", "$V5", "$V6", "$V7", "$V8", "$V9", "$V10", "$V11", "$V12">>
 RenClauseBy(cl, which, q) ==
     LET names == ClauseNames(cl)
         pool  == IF which = 1 THEN Pool1(q) ELSE Reverse(names)
